@@ -221,6 +221,14 @@ theorem submit_step (cfg : Cfg) (hist : List Ev) (s : Sess) (c : Cmd) (sub : Sub
 
 /-! ### the RCPT gate -/
 
+theorem addrparse_limit (cfg : Cfg) (arg a : Bytes) (h : addrparse cfg arg = some a) : a.length + 1 ≤ addrLimit := by
+  unfold addrparse at h
+  split at h
+  · simp at h
+  · simp at h; subst h
+    have : Gen.ADDRMAX = addrLimit := rfl
+    omega
+
 theorem gate_step (cfg : Cfg) (s : Sess) (arg : Bytes) :
     (sstep cfg s (.rcpt arg)).2.replies = [.rcptok] ↔
       s.seenmail = true ∧ s.flagbarf = false ∧
@@ -259,12 +267,12 @@ theorem gate_inv (cfg : Cfg) (hl : MoreLower cfg) (hist : List Ev) (s : Sess) (a
       obtain ⟨snd, mid⟩ := r
       simp [h0] at h
       obtain ⟨_, _, _, h4⟩ := h
-      refine ⟨snd, mid, a, (openTxnB_iff cfg hist snd mid).1 h0, ?_, ha, ?_⟩
+      refine ⟨snd, mid, a, (openTxnB_iff cfg hist snd mid).1 h0, ?_, ha, addrparse_limit cfg arg a ha, ?_⟩
       · rw [← bmf_iff, ← h4, hb]; simp
       · rcases hm with hm | hm
         · exact Or.inl hm
         · exact Or.inr ((match_iff cfg hl a).1 hm)
-  · rintro ⟨snd, mid, a, ho, hb, ha, hm⟩
+  · rintro ⟨snd, mid, a, ho, hb, ha, _, hm⟩
     have h0 := (openTxnB_iff cfg hist snd mid).2 ho
     simp [h0] at h
     obtain ⟨h1, _, _, h4⟩ := h
@@ -306,13 +314,13 @@ theorem gateOKB_iff (cfg : Cfg) (pre : List Ev) (arg : Bytes) : gateOKB cfg pre 
       | none => simp [h0, ha] at h
       | some adr =>
         simp [h0, ha] at h
-        obtain ⟨hb, hm⟩ := h
-        refine ⟨snd, mid, adr, (openTxnB_iff cfg pre snd mid).1 h0, ?_, rfl, ?_⟩
+        obtain ⟨hb, hlen, hm⟩ := h
+        refine ⟨snd, mid, adr, (openTxnB_iff cfg pre snd mid).1 h0, ?_, rfl, hlen, ?_⟩
         · rw [← badSenderB_iff, hb]; simp
         · rcases hm with hm | hm
           · exact Or.inl hm
           · exact Or.inr ((matchSpecB_iff cfg adr).1 hm)
-  · rintro ⟨snd, mid, adr, ho, hb, ha, hm⟩
+  · rintro ⟨snd, mid, adr, ho, hb, ha, hlen, hm⟩
     have h0 := (openTxnB_iff cfg pre snd mid).2 ho
     have hb' : badSenderB cfg snd = false := by
       cases hq : badSenderB cfg snd with
@@ -320,8 +328,8 @@ theorem gateOKB_iff (cfg : Cfg) (pre : List Ev) (arg : Bytes) : gateOKB cfg pre 
       | true => exact absurd ((badSenderB_iff cfg snd).1 hq) hb
     simp only [h0, ha, hb']
     rcases hm with hm | hm
-    · simp [hm]
-    · simp [(matchSpecB_iff cfg adr).2 hm]
+    · simp [hm, hlen]
+    · simp [(matchSpecB_iff cfg adr).2 hm, hlen]
 
 /-! ### lifting to whole sessions -/
 
